@@ -19,3 +19,12 @@ def satMul64 (a b : Nat) : Nat := if a * b < 2 ^ 64 then a * b else 2 ^ 64 - 1
 def satAdd32 (a b : Nat) : Nat := if a + b < 2 ^ 32 then a + b else 2 ^ 32 - 1
 
 end Ldk
+
+namespace Ldk
+def I64_MAX : Nat := 2 ^ 63 - 1
+/-- Rust `u32::checked_mul` -/
+def chkMul32 (a b : Nat) : Option Nat := if a * b < 2 ^ 32 then some (a * b) else none
+def chkAdd32 (a b : Nat) : Option Nat := if a + b < 2 ^ 32 then some (a + b) else none
+/-- Rust `u32::saturating_mul` -/
+def satMul32 (a b : Nat) : Nat := if a * b < 2 ^ 32 then a * b else 2 ^ 32 - 1
+end Ldk
